@@ -50,3 +50,26 @@ def posterior_types(env, sf):
     if isinstance(sf, Rec) and "marginal" in sf.fields:
         return env.of(sf.fields["marginal"]), env.of(sf.fields["conditional"])
     return env.of(sf), None
+
+
+def markov_rank_oracle(t):
+    """Rank of `.mean_flat` / `.noise.mean_flat` of Gaussian objects derived from rank-declared atoms
+    through rank-preserving interface methods (rescale_*, marginalise of a single variable)."""
+    if not (isinstance(t, T.Term) and t.op == "attr" and t.args[1] == "mean_flat"):
+        return None
+    base = t.args[0]
+    key = "mean_flat"
+    if isinstance(base, T.Term) and base.op == "attr" and base.args[1] == "noise":
+        base, key = base.args[0], "noise.mean_flat"
+    for _ in range(8):
+        if not isinstance(base, T.Term):
+            return None
+        if base.op == "mcall" and base.args[1] in ("rescale_cholesky", "rescale_noise"):
+            base = base.args[0]
+            continue
+        if base.op == "mcall" and base.args[1] == "marginalise" and key == "mean_flat" and len(base.args) > 2:
+            base = base.args[2]
+            continue
+        break
+    d = base.meta.get("ndims") if isinstance(base, T.Term) else None
+    return d.get(key) if d else None
